@@ -20,7 +20,7 @@ RES=$(tools/try_patch.sh "$PATCH" "$CHK" 2>&1)
 python3 tools/replays_to_corpus.py "$CHK" "$NAME" "$SINCE"
 VIOL=$(echo "$RES" | grep -c '^VIOLATION')
 SIGS=$(echo "$RES" | grep '^violation:' | cut -c1-300 | head -5)
-cp "$PATCH" "$OUT/patch.diff"; rm -rf "$OUT/demo"; cp -r "$DEMO" "$OUT/demo"; rm -f "$OUT/demo/go.sum"
+[ "$PATCH" = "$OUT/patch.diff" ] || cp "$PATCH" "$OUT/patch.diff"; if [ "$DEMO" != "$OUT/demo" ]; then rm -rf "$OUT/demo"; cp -r "$DEMO" "$OUT/demo"; fi; rm -f "$OUT/demo/go.sum"
 python3 - "$OUT/meta.json" <<PY
 import json,sys
 json.dump({"property":"$PROP","name":"$NAME","breaks":"$PROP","needs_to_manifest":"""$NEEDS""",
